@@ -2,6 +2,8 @@ package main
 
 import (
 	"fmt"
+	"github.com/biscuit-auth/biscuit-go/v2/pb"
+	"google.golang.org/protobuf/proto"
 	"strings"
 
 	biscuit "github.com/biscuit-auth/biscuit-go/v2"
@@ -192,6 +194,53 @@ func runC18(res *Result, rng *RNG, tier string, outDir string) {
 				if _, serr := ev.SerializePolicies(); serr == nil {
 					res.Violate("save-after-evaluation-then:"+what, "SerializePolicies succeeds on an evaluated authorizer after "+what+" (only Reset may make saving possible again): the snapshot carries the token's facts", rep)
 					break
+				}
+			}
+		}
+		// structurally edited snapshots: the symbol list dropped or cut short (indexes then point
+		// past the table), a required field cleared — an error or a working authorizer, never a panic
+		{
+			var ap pb.AuthorizerPolicies
+			if proto.Unmarshal(snapshot, &ap) == nil {
+				for k := 0; k < 4; k++ {
+					cp := proto.Clone(&ap).(*pb.AuthorizerPolicies)
+					what := ""
+					switch k {
+					case 0:
+						what, cp.Symbols = "symbols-dropped", nil
+					case 1:
+						what = "symbols-cut"
+						if len(cp.Symbols) > 0 {
+							cp.Symbols = cp.Symbols[:r.Intn(len(cp.Symbols))]
+						}
+					case 2:
+						what = "symbols-shuffled-in"
+						cp.Symbols = append([]string{"zz-extra"}, cp.Symbols...)
+					default:
+						what, cp.Version = "version-dropped", nil
+					}
+					mb, err := proto.MarshalOptions{AllowPartial: true}.Marshal(cp)
+					if err != nil {
+						continue
+					}
+					fresh, _ := newAuthorizer(tokA, 1000, 100, entryAuthorizerFor)
+					lp := ""
+					func() {
+						defer func() {
+							if p := recover(); p != nil {
+								lp = fmt.Sprint(p)
+							}
+						}()
+						if fresh.LoadPolicies(mb) == nil {
+							fresh.Authorize()
+							_ = fresh.PrintWorld()
+						}
+					}()
+					res.Count(fmt.Sprintf("edited %s %x", what, mb), true)
+					res.Dist("edited-snapshot:" + what)
+					if lp != "" {
+						res.Violate("panic:load-edited:"+what, "LoadPolicies (or the following Authorize / PrintWorld) panicked on a snapshot with "+what+": "+lp, map[string]interface{}{"bytes": fmt.Sprintf("%x", mb), "edit": what})
+					}
 				}
 			}
 		}
